@@ -1,7 +1,6 @@
 SPECIFICATION Spec
-CONSTANTS MaxTok = 5 MaxDepth = 3
-  Leaves <- LeavesQuick
-  RootKinds <- AllRoots
+CONSTANTS MaxDepth = 3
+  Families <- FamT_B
   StoreByCopy = TRUE
   TailKeepsSets = TRUE
 INVARIANT Emitted
